@@ -154,6 +154,16 @@ func TestVerif_C14(t *testing.T) {
 		}
 		heldHost := "held.example.com" // reserved by another deployment throughout
 		heldBy := dtypes.DeploymentID{Owner: owner.String(), DSeq: 888}
+		// refused reports whether the (real) reservation logic will refuse this request: only the
+		// name held by the other deployment can make it do so
+		refused := func(rr *reserveRequest) bool {
+			for _, n := range rr.hostnames {
+				if n == heldHost {
+					return true
+				}
+			}
+			return false
+		}
 		hs := &hostnameService{inUse: map[string]dtypes.DeploymentID{heldHost: heldBy}, requests: make(chan reserveRequest), releases: make(chan []string), lc: lifecycle.New()}
 		hsQuery := make(chan func(), 4)
 		hsStop := make(chan struct{})
@@ -330,7 +340,8 @@ func TestVerif_C14(t *testing.T) {
 				vhosts := hosts
 				if latestVer > 0 || rapid.Bool().Draw(t, "firstHostsVary") {
 					pal := []string{"app.example.com", "b.example.com", "c.example.com"}
-					if latestVer > 0 {
+					if latestVer > 0 || rapid.IntRange(0, 2).Draw(t, "firstNamesHeldHost") == 0 {
+						// (in the first manifest the reservation is refused when it reaches this name)
 						pal = append(pal, heldHost)
 					}
 					vhosts = rapid.SliceOfNDistinct(rapid.SampledFrom(pal), 1, 2, func(x string) string { return x }).Draw(t, "hosts")
@@ -378,6 +389,9 @@ func TestVerif_C14(t *testing.T) {
 				hsQuery <- func() {
 					if ok {
 						hs.doRequest(*a.hostReq)
+						if refused(a.hostReq) {
+							hostFailed = true
+						}
 					} else {
 						a.hostReq.result <- errors.New("verif: hostname refused")
 					}
@@ -451,6 +465,9 @@ func TestVerif_C14(t *testing.T) {
 				done := make(chan struct{})
 				hsQuery <- func() { hs.doRequest(*a.hostReq); close(done) }
 				<-done
+				if refused(a.hostReq) {
+					hostFailed = true
+				}
 				note("drain:host-reply(true)")
 				progressed = true
 			}
@@ -552,6 +569,32 @@ func TestVerif_C14(t *testing.T) {
 				}
 				if time.Now().After(dl) {
 					fail("c14-hostnames-not-released", "the lease was closed and torn down but hostnames %v are still reserved for its deployment", mine)
+				}
+				time.Sleep(time.Millisecond)
+			}
+		}
+		// a lease whose hostname reservation was refused never deploys: once it is closed nothing of
+		// its (partly processed) request may stay reserved either
+		if hostFailed && closeDelivered && !shutdown && !teardownAccepted {
+			dl := time.Now().Add(c14Wait)
+			for {
+				res := make(chan []string, 1)
+				hsQuery <- func() {
+					var mine []string
+					for name, d := range hs.inUse {
+						if d.Equals(lid.DeploymentID()) {
+							mine = append(mine, name)
+						}
+					}
+					sort.Strings(mine)
+					res <- mine
+				}
+				mine := <-res
+				if len(mine) == 0 {
+					break
+				}
+				if time.Now().After(dl) {
+					fail("c14-hostnames-not-released", "the hostname reservation of the lease was refused and the lease is closed, but hostnames %v are still reserved for its deployment", mine)
 				}
 				time.Sleep(time.Millisecond)
 			}
